@@ -20,6 +20,8 @@ for d in sorted(glob.glob('/verif/seeded/C*/'), key=key):
             break
     ch = m.get('confirmed_here', {})
     ok = 'yes' if ch and all(v for k, v in ch.items() if k != 'how') else 'NO'
+    if m.get('obsolete'):
+        ok = 'yes (patch obsolete since f0a8397, see meta.json)'
     rows.append('| %s | %s | %s | %s | %s | %s | %s |' % (i, m['property'], clean(m['summary'], 150), clean(m.get('needs', ''), 150), clean(res, 60), clean(first, 90), ok))
 print('| id | property | change (author\'s summary, abridged) | needs | quick result (after strengthening) | first witness | ok |')
 print('|---|---|---|---|---|---|---|')
